@@ -133,8 +133,46 @@ func (c *Chan) Entry() (IteratorEntry, bool) {
 	return nil, false
 }
 
+// Iter returns the iterator of one consumer of the channel. Every range loop
+// gets an iterator of its own: the value it received last and its count are
+// kept there and not on the channel, where the loops of several threads
+// ranging over one channel overwrote each other's entry (values were then
+// lost and seen twice).
 func (c *Chan) Iter() Iterator {
-	return c
+	return &chanIter{Chan: c}
+}
+
+// chanIter iterates over a channel on behalf of one consumer. Everything but
+// Next and Entry is the channel's own behavior.
+type chanIter struct {
+	*Chan
+	last  Object
+	count int64
+}
+
+func (it *chanIter) Next(ctx context.Context) (Object, bool) {
+	select {
+	case <-ctx.Done():
+		return nil, false
+	case value, ok := <-it.Chan.value:
+		if !ok {
+			return nil, false
+		}
+		it.last = value
+		it.count++
+		return value, true
+	}
+}
+
+func (it *chanIter) Entry() (IteratorEntry, bool) {
+	if it.last != nil {
+		return &Entry{
+			key:     NewInt(it.count - 1),
+			value:   it.last,
+			primary: it.last,
+		}, true
+	}
+	return nil, false
 }
 
 func (c *Chan) Send(ctx context.Context, value Object) (err error) {
